@@ -110,6 +110,10 @@ func Run(c *hx.Ctx) {
 			hpackxCases(c)
 		case "disp":
 			dispCases(c)
+		case "h2disp":
+			h2dispCases(c)
+		case "dmeta":
+			dmetaCases(c)
 		case "pool":
 			poolCases(c)
 		}
@@ -209,6 +213,10 @@ func Run(c *hx.Ctx) {
 	}
 	// the decode loop of the real Dispatch under a Decode-call counter and a watchdog
 	dispCases(c)
+	// the decode loops of the real HTTP/2 server / client Dispatch under a Decode-call recorder and a watchdog
+	h2dispCases(c)
+	// dubbo service-aware metadata walk: hessian2 fields of unexpected types at each position
+	dmetaCases(c)
 	// a panicking task through the real worker pool in every pool state, each probe in a child process
 	poolCases(c)
 	// containment: an in-process MOSN keeps answering a probe while other connections send malformed streams
